@@ -434,17 +434,41 @@ fn judge_bad_bytes(before: &[String], line: &str, place: u8, raw: u8, after: &[S
     obs.key = hash_of(&("bad-bytes", before, line, place, raw, after));
     obs.nontrivial = true;
     obs.label("line-that-is-not-utf8");
-    let bytes = RAW_BYTES[raw as usize % RAW_BYTES.len()];
-    // the bad line: the raw bytes at the start, in the middle (a character boundary) or at the end
-    let mut bad: Vec<u8> = Vec::new();
-    let cut = match place % 3 {
-        0 => 0,
-        1 => (0..=line.len() / 2).rev().find(|i| line.is_char_boundary(*i)).unwrap_or(0),
-        _ => line.len(),
+    // the bad line: raw bytes at the start, in the middle (a character boundary) or at the end; or one
+    // of the line's own ASCII characters (or a `;` / newline joining it to a second command)
+    // spelled as an over-long 2-, 3- or 4-byte sequence - well-formed in structure, yet not UTF-8
+    let overlong = |c: u8, n: u8| -> Vec<u8> {
+        match n % 3 {
+            0 => vec![0xC0 | (c >> 6), 0x80 | (c & 0x3F)],
+            1 => vec![0xE0, 0x80 | (c >> 6), 0x80 | (c & 0x3F)],
+            _ => vec![0xF0, 0x80, 0x80 | (c >> 6), 0x80 | (c & 0x3F)],
+        }
     };
-    bad.extend(&line.as_bytes()[..cut]);
-    bad.extend(bytes);
-    bad.extend(&line.as_bytes()[cut..]);
+    let mut bad: Vec<u8> = Vec::new();
+    if raw as usize % (RAW_BYTES.len() + 6) >= RAW_BYTES.len() && !line.is_empty() {
+        obs.label("over-long-encoding-of-a-command-character");
+        let which = raw as usize % (RAW_BYTES.len() + 6) - RAW_BYTES.len();
+        if which < 4 && line.is_ascii() {
+            let at = place as usize % line.len();
+            bad.extend(&line.as_bytes()[..at]);
+            bad.extend(overlong(line.as_bytes()[at], place / 7));
+            bad.extend(&line.as_bytes()[at + 1..]);
+        } else {
+            bad.extend(line.as_bytes());
+            bad.extend(overlong(if which % 2 == 0 { b';' } else { b'\n' }, place));
+            bad.extend(b"move r5 x5555");
+        }
+    } else {
+        let bytes = RAW_BYTES[raw as usize % (RAW_BYTES.len() + 6) % RAW_BYTES.len()];
+        let cut = match place % 3 {
+            0 => 0,
+            1 => (0..=line.len() / 2).rev().find(|i| line.is_char_boundary(*i)).unwrap_or(0),
+            _ => line.len(),
+        };
+        bad.extend(&line.as_bytes()[..cut]);
+        bad.extend(bytes);
+        bad.extend(&line.as_bytes()[cut..]);
+    }
     let mut stdin: Vec<u8> = Vec::new();
     for c in before {
         stdin.extend(c.as_bytes());
@@ -576,7 +600,7 @@ impl Prop for C14 {
          Oracle RefCmd (doc comment of the integer parser, NaiveType table, help.txt): value accepted <=> documented integer in [-32768, 65535], R1 = v mod 2^16; location => PC / breakpoint list equals the resolved address; everything else => an error is reported and nothing changes; never a panic. \
          (b) every command name, alias and listed misspelling (one- and two-word forms) in 3 random letter cases: alias => transcript, output, exit and final state identical to the canonical name in a fixed scenario; misspelling => CommandError and no effect. `print` without argument = `print ^`. \
          (c) generated scripts of 1-8 commands delivered through --command, through stdin, or split at every point, with `;` or newline as separator, empty commands and surrounding blanks: stdout, stderr, exit status and final state identical to the plain delivery (in-process through the real CommandReader, plus a sample through the real binary with a pipe as stdin). \
-         (d) scripts on standard input in which one line contains bytes that are not UTF-8 (lone / truncated / overlong / surrogate sequences at the start, in the middle or at the end of a command): no panic, and the session equals the one with an invalid textual line in its place. Non-trivial: token with a sign/prefix and a digit; name variant; script split strictly inside. Distinct = token batch / name / (script, split)."
+         (d) scripts on standard input in which one line contains bytes that are not UTF-8 (lone / truncated / surrogate sequences at the start, in the middle or at the end of a command; a character of the command, or a `;` / newline joining two commands, spelled as an over-long 2-, 3- or 4-byte sequence): no panic, and the session equals the one with an invalid textual line in its place. Non-trivial: token with a sign/prefix and a digit; name variant; script split strictly inside. Distinct = token batch / name / (script, split)."
     }
     fn assumptions(&self) -> Vec<String> {
         vec![
